@@ -119,6 +119,36 @@ CHECKS_K1 = {
                 "cross-check only.",
         "technique": "guard (exception-escape) contracts decided modularly on the AST with a least-fixpoint over each module's call graph; K1 for the path-sensitive part",
     },
+    "C10": {
+        "text": "Contracts on the three engines concat_with_iterable_, catch_with_iterable_ and on_error_resume_next_ (subscribe + one "
+                "arbitrary tick + the continuation handler) and on every wrapper that feeds them. Engine: subscribe takes ONE iterator, "
+                "schedules ONE tick, subscribes and emits nothing; disposing the result stops future ticks and disposes the current "
+                "subscription and the pending tick. The tick, from an arbitrary state (iterator position, disposed or not, anything "
+                "held in the serial disposables): disposed - does nothing; otherwise asks the iterator exactly once; an item - "
+                "subscribes exactly THAT source once, with the subscriber's own on_next, the subscriber's own handler for the "
+                "terminal the operator does not continue on and a continuation handler for the one it continues on (completion for "
+                "concat, error for catch, both for on_error_resume_next), the new subscription replacing (disposing) the previous "
+                "one, nothing emitted or scheduled; exhausted - on_completed (catch: the last error if any); a raising iterator - "
+                "on_error with that exception. The continuation handler schedules exactly one tick of the same closure and nothing "
+                "else. Hence: strictly one source at a time, the next only after the previous one ended the continuing way; output = "
+                "concatenation of the elements; a non-continuing terminal ends it at once. Wrappers: reactivex.concat / catch / "
+                "on_error_resume_next and the operators concat_, catch_ (fallback observable), on_error_resume_next_ hand their "
+                "sources over in order; start_with_ = concat(from_iterable(values), source); repeat_(n) / retry_(n) hand over an "
+                "iterable that yields the source itself exactly n times (forever for None), built anew for every subscription "
+                "(inside defer / subscribe), so repeat subscribes exactly n times when every run completes and retry at most n times; "
+                "while_do_ hands over takewhile(condition, source for ever) built per subscription; do_while_ = source then "
+                "while_do.",
+        "note": "Trusted: rxvc; z3; the scheduler is opaque (that a scheduled tick runs once is C30 - the default scheduler here is the "
+                "current-thread trampoline); iterables of sources follow the iterator protocol over an arbitrary sequence; each source "
+                "is opaque and obeys the notification grammar (one terminal), which is what makes 'one tick per continuing terminal' "
+                "mean 'one source at a time'; SerialDisposable / SingleAssignmentDisposable run for real (C26); A-exc (an exception "
+                "instance is truthy: catch tests `if last_exception`); itertools.takewhile and generator expressions over range / "
+                "infinite() are trusted library semantics (the obligation is what is handed to them). Not under contract: the handler "
+                "form of catch (catch_handler - its own subscribe logic), callables and futures among on_error_resume_next's sources, "
+                "for_in (concat of map). Replay and thorough cross-check: seqrun.py (scripted cold sources, subscription order log, "
+                "every operator object subscribed twice) - bounded.",
+        "technique": "function/closure contracts (subscribe + one arbitrary tick + continuation) and wrapper-to-engine obligations, symbolic execution of the real code, SMT",
+    },
     "C30": {
         "text": "Function contracts with a loop invariant on the real Trampoline, TrampolineScheduler and CurrentThreadScheduler. "
                 "Trampoline.run(item): when idle it enqueues exactly the item, marks the trampoline busy, enters the run loop with the "
